@@ -130,7 +130,8 @@ CLAIMED.update({
              "Tied to /repo by making each node of generated programs (flat, gated, cyclic, nested to depth 3) raise a fresh exception "
              "object and checking identity (`is`), FAILED values against the failure-free run, and the model's partial state.",
         design_ref="DESIGN.md section 5 C11",
-        note="Exception identity itself is Python runtime behaviour (checked, not modelled: err ids); map-level propagation is covered by "
+        note="'Only values of nodes that completed' is the provenance theorem C11_partial_provenance / C11_no_unfinished_output (under the "
+             "executor contract that a node returns values for its declared outputs only). Exception identity itself is Python runtime behaviour (checked, not modelled: err ids); map-level propagation is covered by "
              "C10; interrupt handlers' exceptions are wrapped in RuntimeError by the implementation (known finding F-c, pinned by a repository test).",
         technique="Coq proof (characterisation of failing supersteps and of the nested executor) + fault enumeration over nodes",
     ),
